@@ -3659,10 +3659,6 @@ fn validate_self_contained_export_retained_payloads(
     retained_materials: &[RetainedMaterialRecord],
     retained_payloads: &[WscSelfContainedRetainedMaterial],
 ) -> Result<(), WscSelfContainedWalExportError> {
-    let material_by_digest = retained_materials
-        .iter()
-        .map(|material| (material.material_digest, *material))
-        .collect::<BTreeMap<_, _>>();
     validate_self_contained_retained_hashes(retained_payloads).map_err(|(expected, actual)| {
         WscSelfContainedWalExportError::RetainedMaterialDigestMismatch { expected, actual }
     })?;
@@ -3681,7 +3677,10 @@ fn validate_self_contained_export_retained_payloads(
     }
     if let Some(extra) = retained_payloads
         .iter()
-        .find(|payload| !material_by_digest.contains_key(&payload.material.material_digest))
+        // the embedded record must be one of the retention records itself (same digest,
+        // semantic coordinate, kind and posture) — equal bytes under another coordinate
+        // are a different retained material
+        .find(|payload| !retained_materials.contains(&payload.material))
     {
         return Err(WscSelfContainedWalExportError::ExtraRetainedMaterial {
             material_digest: extra.material.material_digest,
@@ -3694,10 +3693,6 @@ fn validate_self_contained_import_retained_payloads(
     retained_materials: &[RetainedMaterialRecord],
     retained_payloads: &[WscSelfContainedRetainedMaterial],
 ) -> Result<(), WscSelfContainedWalImportError> {
-    let material_by_digest = retained_materials
-        .iter()
-        .map(|material| (material.material_digest, *material))
-        .collect::<BTreeMap<_, _>>();
     validate_self_contained_retained_hashes(retained_payloads).map_err(|(expected, actual)| {
         WscSelfContainedWalImportError::RetainedMaterialDigestMismatch { expected, actual }
     })?;
@@ -3716,7 +3711,10 @@ fn validate_self_contained_import_retained_payloads(
     }
     if let Some(extra) = retained_payloads
         .iter()
-        .find(|payload| !material_by_digest.contains_key(&payload.material.material_digest))
+        // the embedded record must be one of the retention records itself (same digest,
+        // semantic coordinate, kind and posture) — equal bytes under another coordinate
+        // are a different retained material
+        .find(|payload| !retained_materials.contains(&payload.material))
     {
         return Err(WscSelfContainedWalImportError::ExtraRetainedMaterial {
             material_digest: extra.material.material_digest,
